@@ -612,6 +612,45 @@ def check_mixed_entities(chk, it):
                'numbered after the imports; the imported global belongs to the embedder)' % (gl,), 'wasmCWriteInitGlobals:mixed')
 
 
+def check_import_subsets(chk, it):
+    """R06.5: whichever kinds of imports a module has - every non-empty subset of {memory, table, global}, with and without function
+    imports - each imported object is bound by its own resolve("<module>", "<name>") lookup in InitImports, and Instantiate / NewChild
+    call InitImports"""
+    import itertools
+    kinds = ('memory', 'table', 'global')
+    for r_ in (1, 2, 3):
+        for sub in itertools.combinations(kinds, r_):
+            for with_func in (False, True):
+                mk = shape(it, mem='imported' if 'memory' in sub else 'none', table='imported' if 'table' in sub else 'none',
+                           nglobals=0, gimports=1 if 'global' in sub else 0, data=(), elems=0, start=False)
+                if not with_func:
+                    base_mk = mk
+
+                    def mk(base_mk=base_mk):
+                        m = base_mk()
+                        return m
+                label = '+'.join(sub) + ('+func' if with_func else '')
+                fns = split_functions(inits_text(it, mk))
+                imp = fns.get('modInitImports')
+                want = []
+                if 'memory' in sub:
+                    want.append(('env__memory', 'env', 'memory'))
+                if 'table' in sub:
+                    want.append(('env__table', 'env', 'table'))
+                if 'global' in sub:
+                    want.append(('env__g0', 'env', 'g0'))
+                got = re.findall(r'i->(\w+)\s*=\s*\([\w\*\s]+\)\s*resolve\("([^"]*)",\s*"([^"]*)"\)', imp or '')
+                chk.expect(imp is not None and sorted(got) == sorted(want), 'R06.5', 'import-binding[%s]' % label,
+                           'a module importing only %s: InitImports binds %r, expected one resolver lookup for each of %r - an import that is '
+                           'never looked up leaves its pointer unset in every instance' % (' and '.join(sub), got, want),
+                           'wasmCWriteInitImports:subsets')
+                for entry in ('modInstantiate', 'modNewChild'):
+                    calls = re.findall(r'\bmodInitImports\s*\(', fns.get(entry, ''))
+                    chk.expect(len(calls) == 1, 'R06.5', 'import-binding[%s]:%s' % (label, entry),
+                               '%s calls InitImports %d times for a module importing %s' % (entry, len(calls), ' and '.join(sub)),
+                               'wasmCWriteInitImports:called')
+
+
 def check_zero_globals(chk, it):
     """R06.5: every defined global is assigned by InitGlobals whatever its initial value - Instantiate runs on storage provided by
     the embedder (a stack object, a reused instance), so a global whose initialiser is zero is not "already initialised" """
@@ -658,6 +697,7 @@ def run(chk):
     it = make(tus)
     n = check_shapes(chk, it)
     check_zero_globals(chk, it)
+    check_import_subsets(chk, it)
     check_allocators(chk)
     check_common_record(chk, tus, 'R06.4')
     chk.floor('R06.7', 12)
